@@ -39,6 +39,66 @@ def isinstance_classes(fi: FuncInfo) -> set[str]:
     return out
 
 
+def _correlated_projection(run, pj, pf: FuncInfo, pdoc: str) -> bool:
+    """the data-driven spelling of project(): ONE result construction in which the projected document and the lossy flag are
+    decided by the same condition -
+        filtered = <doc> if C else <filter>(<doc>, ...)      lossy = not C      output = emit(filtered)
+    and every row of the projection table that filters (keep is not None) names a non-empty omitted list. With run=None only
+    recognises the form; with a Run records instances / violations of R14.2."""
+    from ..pathstate import conjuncts
+
+    cons = [n for n in walk_no_nested(pf.node) if isinstance(n, ast.Call) and ast.unparse(n.func) == "ProjectionResult"]
+    if len(cons) != 1:
+        return False
+    kw = {k.arg: k.value for k in cons[0].keywords}
+    fd, lossy, out, om = kw.get("filtered_doc"), kw.get("lossy"), kw.get("output"), kw.get("fields_omitted")
+    if not isinstance(fd, ast.Name):
+        return False
+    defs = [a.value for a in walk_no_nested(pf.node) if isinstance(a, ast.Assign) and any(is_name(t, fd.id) for t in a.targets)]
+    if len(defs) != 1 or not isinstance(defs[0], ast.IfExp):
+        return False
+    ife = defs[0]
+    if is_name(ife.body, pdoc):
+        same_when = conjuncts(ife.test, True)
+    elif is_name(ife.orelse, pdoc):
+        same_when = conjuncts(ife.test, False)
+    else:
+        return False
+    if run is None:
+        return True
+    other = ife.orelse if is_name(ife.body, pdoc) else ife.body
+    filt_ok = isinstance(other, ast.Call) and ast.unparse(other.func) == "_filter_fields" and other.args and is_name(other.args[0], pdoc)
+    lossy_ok = lossy is not None and set(conjuncts(lossy, False)) == set(same_when) and bool(same_when)
+    out_ok = out is not None and ast.unparse(out) == f"emit({fd.id})"
+    ok = filt_ok and lossy_ok and out_ok
+    run.instance("R14.2", pj.loc(cons[0]), f"project: one construction; the input document is passed through exactly when `{' and '.join(same_when)}`, lossy is the negation of that, output is emit(<that document>)", ok=ok)
+    if not ok:
+        run.violation("R14.2", pj, pf.qualname, cons[0], f"the projected document and the lossy flag are not decided by the same condition (filter call ok={filt_ok}, lossy is the negation of the pass-through condition={lossy_ok}, output=emit(projected)={out_ok}): a view that leaves things out can claim to be complete")
+    # table rows: a row that filters names what it omits
+    rows_ok, n_rows = True, 0
+    spec_fields = None
+    for nm in {x.id for x in walk_no_nested(pf.node) if isinstance(x, ast.Name)}:
+        if pj.has_const(nm) and isinstance(pj.const_node(nm), (ast.Tuple, ast.List)):
+            for r in pj.const_node(nm).elts:
+                if isinstance(r, ast.Call) and isinstance(r.func, ast.Name) and r.func.id in pj.classes:
+                    from ..inline import record_fields
+
+                    spec_fields = record_fields(pj.classes[r.func.id].node) or []
+                    vals = dict(zip(spec_fields, r.args))
+                    vals.update({k.arg: k.value for k in r.keywords})
+                    keepv, omv = vals.get("keep"), vals.get("omitted")
+                    n_rows += 1
+                    filters = not (isinstance(keepv, ast.Constant) and keepv.value is None)
+                    om_f = run.project.try_fold(pj, omv) if omv is not None else None
+                    if filters and not (isinstance(om_f, (tuple, list)) and len(om_f) > 0):
+                        rows_ok = False
+    run.instance("R14.2", pj.loc(pf.node), f"project: {n_rows} table row(s); every row that filters names a non-empty omitted list", ok=rows_ok and n_rows >= 3)
+    if not (rows_ok and n_rows >= 3):
+        run.violation("R14.2", pj, pf.qualname, "projection table rows", "a projection that filters reports an empty fields_omitted (or the table was not recognised)")
+    run.instance("R14.2", pj.loc(cons[0]), f"project: fields_omitted is taken from the selected row ({ast.unparse(om) if om is not None else None})", ok=om is not None and "omitted" in ast.unparse(om))
+    return True
+
+
 def json_converters_exhaustive(project, res: Resolver) -> tuple[bool, str]:
     """premise of C20 R20.5's exemption for json.dumps / yaml.dump in the eject tool: the JSON-side converters of mcp.eject have a
     branch for every node kind and every value kind (the same sets R14.1 requires), so that their result contains only plain
@@ -85,7 +145,7 @@ def delegate_of(fi: FuncInfo, res: Resolver) -> FuncInfo | None:
 
 
 def check_plain_emit_and_elementwise(run: Run) -> None:
-    run.rule("R14.6", "every OCTAVE rendering produced by project() is the plain canonical emission of the (projected) document: emit(<doc>) with one argument and no format options (post-emission formatting rewrites lines inside literal zones)", 3)
+    run.rule("R14.6", "every OCTAVE rendering produced by project() is the plain canonical emission of the (projected) document: emit(<doc>) with one argument and no format options (post-emission formatting rewrites lines inside literal zones)", 1)
     run.rule("R14.7", "list values are converted element by element: the ListValue branch of each value converter returns one output element per item of value.items (a comprehension over .items without filter), never a merge of the items", 2)
     pj = run.project.mod("core.projector")
     fi = pj.func("project")
@@ -97,8 +157,8 @@ def check_plain_emit_and_elementwise(run: Run) -> None:
             run.instance("R14.6", pj.loc(c), f"project: `{norm(c)}`", ok=ok)
             if not ok:
                 run.violation("R14.6", pj, "project", f"emit with options: {norm(c)[:60]}", f"project() renders with `{norm(c)[:70]}`: format options post-process the emitted text line by line (trailing whitespace, blank-line squeezing, blank lines before §-looking lines) including the content of literal zones, so this rendering shows values the document does not have while reporting lossy=false, and disagrees with the JSON/YAML renderings")
-    if n < 3:
-        raise AnalysisError(f"project(): only {n} emit() call(s) found")
+    if n < 1:
+        raise AnalysisError("project(): no emit() call found")
     ej = run.project.mod("mcp.eject")
     for q in ("_convert_value", "_format_markdown_value"):
         f2 = ej.func(q)
@@ -253,11 +313,15 @@ def check(run: Run) -> None:
                 run.instance("R14.2", pj.loc(n), "project: full view returns the input document itself, output emit(doc), lossy=False", ok=ok)
                 if not ok:
                     run.violation("R14.2", pj, pf.qualname, n, "a non-lossy projection does not return the input document and its plain emission")
+            elif _correlated_projection(None, pj, pf, pdoc):
+                continue  # judged as a whole by _correlated_projection below
             else:
                 ok = isinstance(lossy, ast.Constant) and lossy.value is True and isinstance(kw.get("fields_omitted"), (ast.List, ast.Tuple)) and bool(kw["fields_omitted"].elts)
                 run.instance("R14.2", pj.loc(n), f"project: filtered view (filtered_doc={norm(fd) if fd is not None else None}) reports lossy=True with a non-empty fields_omitted", ok=ok)
                 if not ok:
                     run.violation("R14.2", pj, pf.qualname, n, "a projection whose document is not the input document reports lossy other than the constant True (or an empty fields_omitted): a view that leaves things out claims to be complete")
+    if n_full == 0 and n_filtered == 1 and _correlated_projection(run, pj, pf, pdoc):
+        n_full, n_filtered = 1, 2  # one construction serves both kinds of view, decided by one condition (checked there)
     if n_full < 1 or n_filtered < 2:
         raise AnalysisError(f"project: {n_full} full-view and {n_filtered} filtered-view ProjectionResult construction(s) found (expected >= 1 and >= 2)")
     # the keep-lists and omitted-lists are complementary constant sets
@@ -284,6 +348,17 @@ def check(run: Run) -> None:
             """the result of one of the projector's own (recursive) filter functions, directly or through a local"""
             if isinstance(e, ast.Call) and isinstance(e.func, ast.Name) and e.func.id in own_funcs:
                 return True
+            if isinstance(e, ast.Call) and isinstance(e.func, ast.Attribute) and isinstance(e.func.value, ast.Name) and e.func.value.id == "self" and e.func.attr in own_funcs:
+                return True  # a method of the projector's own filter class
+            if isinstance(e, (ast.ListComp,)) and len(e.generators) == 1 and filter_result(e.elt, depth + 1):
+                return True  # [self.preserve(child) for child in node.children]
+            if isinstance(e, ast.Call) and isinstance(e.func, ast.Attribute) and e.func.attr in own_funcs and isinstance(e.func.value, ast.Call) and isinstance(e.func.value.func, ast.Name) and e.func.value.func.id in pj.classes:
+                return True  # _FieldFilter(keep).prune(doc.sections): a method of the projector's own filter class on a fresh instance
+            if isinstance(e, ast.Name) and depth < 3:
+                # bound by a walrus in a test: `(kept := self.prune(node.children))`
+                wal = [w.value for w in walk_no_nested(fi.node) if isinstance(w, ast.NamedExpr) and is_name(w.target, e.id)]
+                if wal and all(filter_result(w, depth + 1) for w in wal):
+                    return True
             if isinstance(e, ast.Name) and depth < 3:
                 defs = [a.value for a in walk_no_nested(fi.node) if isinstance(a, ast.Assign) and any(is_name(t, e.id) for t in a.targets)]
                 return bool(defs) and all(filter_result(d, depth + 1) for d in defs)
@@ -302,7 +377,7 @@ def check(run: Run) -> None:
                     run.violation("R14.3", pj, fi.qualname, n, "dataclasses.replace in the projector changes something other than children/sections, or sets them to something that is not the recursive filter's result")
             if isinstance(n, ast.Call) and isinstance(n.func, ast.Attribute) and n.func.attr == "append" and isinstance(n.func.value, ast.Name) and (n.func.value.id == "filtered" or n.func.value.id in returned) and n.args:
                 a = n.args[0]
-                ok = isinstance(a, ast.Name) or (isinstance(a, ast.Call) and ast.unparse(a.func) in ("replace", "dataclasses.replace"))
+                ok = isinstance(a, ast.Name) or (isinstance(a, ast.Call) and ast.unparse(a.func) in ("replace", "dataclasses.replace")) or filter_result(a)
                 run.instance("R14.3", pj.loc(n), f"{fi.qualname}: `{norm(n)}` keeps an existing node or its child-filtered copy", ok=ok)
                 if not ok:
                     run.violation("R14.3", pj, fi.qualname, n, "the filter appends something that is neither an existing node nor replace(node, children=...)")
@@ -319,7 +394,14 @@ def check(run: Run) -> None:
         for n in walk_no_nested(fi.node):
             if isinstance(n, ast.Compare) and len(n.ops) == 1 and isinstance(n.ops[0], (ast.In, ast.NotIn)) and ast.unparse(n.left).endswith(".key"):
                 c = n.comparators[0]
-                tests.append((fi, n, isinstance(c, ast.Name) and (c.id in from_param or c.id in params)))
+                good = isinstance(c, ast.Name) and (c.id in from_param or c.id in params)
+                if not good and isinstance(c, ast.Attribute) and isinstance(c.value, ast.Name) and c.value.id == "self" and fi.cls:
+                    # self.<attr> set in __init__ to set(<param>) / frozenset(<param>)
+                    init = pj.functions.get(f"{fi.cls}.__init__")
+                    if init is not None:
+                        ip = {a.arg for a in init.node.args.args}  # type: ignore[attr-defined]
+                        good = any(isinstance(a, ast.Assign) and len(a.targets) == 1 and ast.unparse(a.targets[0]) == f"self.{c.attr}" and isinstance(a.value, ast.Call) and ast.unparse(a.value.func) in ("set", "frozenset") and len(a.value.args) == 1 and isinstance(a.value.args[0], ast.Name) and a.value.args[0].id in ip for a in walk_no_nested(init.node))
+                tests.append((fi, n, good))
     ok = len(tests) == 1 and tests[0][2]
     where = tests[0][0] if tests else pj.func("_filter_fields")
     run.instance("R14.3", pj.loc(where.node), f"{where.qualname}: a node is kept when node.key is in the set made from the keep list ({len(tests)} membership test(s))", ok=ok)
